@@ -24,8 +24,14 @@ DEVIATIONS = {
                            KwNames={'k', 'x'}, MAXK=1),
     'bound_self_counted': dict(Shapes={0, 3, 84}, Kinds={'method', 'callable'}, MAXPA=2, PKNames={'y'}, MAXPK=1, MAXNP=1,
                                KwNames={'y'}, MAXK=1),
+    'posonly_partial_keyword': dict(Shapes={161, 244}, Kinds={'func'}, MAXPA=1, PKNames={'x'}, MAXPK=1, MAXNP=1,
+                                    KwNames={'y'}, MAXK=1),
+    'posonly_unknown': dict(Shapes={161, 244, 324}, Kinds={'func'}, MAXPA=0, PKNames=set(), MAXPK=0, MAXNP=2,
+                            KwNames={'x', 'y'}, MAXK=1),
 }
-ALL_SHAPES = set(range(160))
+ALL_SHAPES = set(range(480))
+CURRENT = {'posonly_partial_keyword'}      # deviations that describe the code as it is now (a recorded finding)
+PO_SHAPES = {161, 162, 164, 167, 244, 247, 324, 327, 405, 254}      # shapes with positional-only parameters (ids 160..479)
 QUICK_SHAPES = {0, 1, 2, 3, 4, 5, 7, 8, 14, 17, 24, 27, 34, 41, 44, 47, 54, 64, 67, 74, 84, 87, 94, 104, 107, 114,
                 124, 127, 134, 141, 144, 147, 154, 159}
 EVALS = []
@@ -77,8 +83,10 @@ def tlc_catalogue(consts, work):
 
 def param_list(sig):
     params = []
-    for p in sig['pos']:
+    for n, p in enumerate(sig['pos']):
         params.append(p['n'] + ('=1' if p['hd'] else ''))
+        if p.get('po') and not (n + 1 < len(sig['pos']) and sig['pos'][n + 1].get('po')):
+            params.append('/')           # the parameters so far are positional-only
     if sig['va']:
         params.append('*a')
     elif sig['ko']:
@@ -178,6 +186,9 @@ def signature(t, v):
     return {'engine': 'valid', 'clauses': v[1], 'kind': tg['kind'], 'partial': tg['partial'], 'wraps': bool(tg.get('wraps')),
             'partial_over_bound': bool(tg['partial'] and tg['kind'] != 'func'),
             'kwonly': bool(kon), 'varargs': tg['sig']['va'], 'varkw': tg['sig']['vk'],
+            'posonly': any(p.get('po') for p in tg['sig']['pos']),
+            # a partial that fixes a KEYWORD named like a positional-only parameter of the function
+            'partial_kw_posonly': bool(tg['partial']) and any(n in {p['n'] for p in tg['sig']['pos'] if p.get('po')} for n in tg['pk']),
             'isvalid': e['isvalid'], 'validate': e['validate'], 'actual': e['actual']}
 
 
@@ -205,7 +216,7 @@ def main(pid, tier):
     rep = common.Report(pid, tier)
     thorough = tier == 'thorough'
     work = common.scratch('valid')
-    consts = dict(Shapes=ALL_SHAPES if thorough else QUICK_SHAPES, Kinds={'func', 'method', 'callable'},
+    consts = dict(Shapes=ALL_SHAPES if thorough else QUICK_SHAPES | PO_SHAPES, Kinds={'func', 'method', 'callable'},
                   MAXPA=3 if thorough else 2, PKNames={'x', 'y', 'k', 'w'}, MAXPK=2,
                   MAXNP=4 if thorough else 3, KwNames={'x', 'y', 'z', 'k', 'w'}, MAXK=2 if not thorough else 3,
                   Deviations=set())
